@@ -35,7 +35,7 @@ def odd_places_and_hooks(ctx):
     cwd = os.getcwd()
     os.chdir(d)
     try:
-        for scenario in ("inside-tempdir", "hooks-restore-file"):
+        for scenario in ("inside-tempdir", "hooks-restore-file", "second-job", "second-job-rejected"):
             for flag in ("--lines", "--char"):
                 for strategy in ("minimize", "minimize-around", "minimize-balanced"):
                     td = d / "tmp1"
@@ -53,7 +53,14 @@ def odd_places_and_hooks(ctx):
                     res = None
                     try:
                         with contextlib.redirect_stdout(io.StringIO()), contextlib.redirect_stderr(io.StringIO()):
-                            res = Lithium().main(argv)
+                            lith = Lithium()
+                            if scenario.startswith("second-job"):
+                                # the same object has done another job before; the file now holds a new testcase
+                                lith.main(argv)
+                                data = b"x\nq\nr\n" if scenario.endswith("rejected") else b"p\nkeep\nq\nr\ns\n"
+                                tc.write_bytes(data)
+                                sys.modules["c01_odd"].ACCEPTED.clear()
+                            res = lith.main(argv)
                     except (Exception, SystemExit) as exc:  # pylint: disable=broad-except
                         res = f"{type(exc).__name__}: {exc}"
                     finally:
@@ -62,6 +69,8 @@ def odd_places_and_hooks(ctx):
                     ctx.bump("odd-places-and-hooks")
                     accepted = sys.modules["c01_odd"].ACCEPTED if "c01_odd" in sys.modules else []
                     final = tc.read_bytes() if tc.exists() else None
+                    if scenario == "second-job-rejected":
+                        accepted = [data]          # nothing accepted in this run: the file as loaded
                     if not accepted or final != accepted[-1]:
                         ctx.fail("final-not-last-accepted", f"{scenario}: main({argv[:-1]}) -> {res}: the file holds {final!r}, the last version the test "
                                  f"accepted is {accepted[-1] if accepted else None!r}", case)
